@@ -1,5 +1,12 @@
 //@include prelude/header.rs
 verus! {
+// Unit cli_unused — C20 (`fixtures unused` / `fixtures list` counts) and the CLI clause of C04.
+//   L1: cli.rs compute_definition_usage_counts == counts_post (exact: domain + every count, memoisation included)
+//       cli.rs get_unused_fixtures           == unused_post (sorted by (path, name); multiset of listed keys)
+//   L2: prelude/cli_l2.rs (C20.a listed-iff, C20.b counts == op_refs under the mirror invariant, C20.c reproducible)
+//   assumed: prelude/hashmap.rs (std HashMap shim), prelude/option_ext.rs (Option::copied/is_some_and,
+//            Ordering::then_with, PathBuf/String Ord::cmp = uninterpreted total orders, <[T]>::sort_by)
+//   source rewrite (T9): `&d.file_path == def_path` -> `d.file_path == *def_path` (vstd: no spec for &A == &B)
 global size_of usize == 8;  // A6: 64-bit target
 pub mod pre {
 use super::*;
